@@ -204,6 +204,11 @@ theorem poolInv_step {c : Cfg} {σ σ' : Sys} (h : PoolInv c σ) (st : Next c σ
     simp only
     cases g <;> simp [Gen.trans] at htr <;> subst htr <;> simp_all <;> omega
 
+/-- events by which the model's `Running` handlers give the slot back -/
+def releasesSlot : Ev → Bool
+  | .ProcessCompletedSuccessfully | .ProcessReturnedNonZero | .ProcessTimeout => true
+  | _ => false
+
 /-! ## the step command as a process -/
 
 /-- states from which the command has certainly not been started -/
